@@ -25,6 +25,22 @@ Operators (kind):
                                                           verif.props.c01_pdfenc.FIELDS (/V /R /Length /CF /CFM /StmF /StrF /O /U /P /ID
                                                           /EncryptMetadata /Filter /SubFilter, stream and string ciphertext cut / padded
                                                           wrongly), /O and /U recomputed so that the empty password still opens the file
+  (seed renderings)                                       G seeds with a CFB / ZIP container also exist as "G:<seed>~<variant>"
+                                                          (verif.props.c01_seeds.build_variants): entry names respelled upper / lower
+                                                          (thorough: + swapcase) - CFB names compare case-insensitively, OPC part names
+                                                          too -, CFB major version 4 (4096-byte sectors; thorough: + degenerate
+                                                          directory list).  Each rendering: unmutated through every seam, and through
+                                                          the extractor every container-level operator (cfb, fatent, zdrop, zempty,
+                                                          zhost; thorough: every container-aware operator of the seed)
+  route payload style mime ext                            routing family: the payload (a seed intact | empty | thorough: its first 8
+                                                          bytes) travels under a name spelled in one of NAME_STYLES (no name at all /
+                                                          "att" / "att.bin" / "att." / "att.<ext>" / "ATT.<EXT>" / "att.<foreign ext>" /
+                                                          ".<ext>" / "d/att.<ext>") (a) as an e-mail attachment (seams att-eml, att-mbox;
+                                                          thorough: also both through read_file) declared as every media type the
+                                                          library registers or this harness knows - spelled as registered and in upper
+                                                          case (thorough: and lower case) - and as 3 unregistered types, (b) as a member
+                                                          of a ZIP / tar (thorough: tar.gz) archive (mem-zip, mem-tar, mem-tgz), (c) as
+                                                          a file given to read_file and the CLI (thorough: every CLI mode)
 Seams: direct = list(extractor(BytesIO(data), path)); read_file (temp file); zipmember (read_archive of a ZIP holding the bytes);
 eml (attachment -> iterate_supported_attachments); cli / cli-json / cli-json-unit / cli-json-binary / cli-json-unit-binary /
 cli-binary (cli.main with every option combination).  The CLI runs with stdout / stderr as the interpreter provides them: text
@@ -72,7 +88,22 @@ STDOUTS_THOROUGH = STDOUTS_QUICK + ["latin-1", "utf-16"]
 VIA = {"read_file": ["tempfile", "read_file"], "zipmember": ["zip-member", "read_archive"],
        "eml": ["eml-attachment", "read_eml", "iterate_supported_attachments"]}
 VIA.update({m: ["tempfile", "cli.main"] + a for m, a in CLI_ARGV.items()})
+VIA.update({"att-eml": ["eml-attachment", "read_eml", "iterate_supported_attachments"],
+            "att-mbox": ["mbox-attachment", "read_mbox", "iterate_supported_attachments"],
+            "att-eml-file": ["eml-attachment", "tempfile", "read_file", "iterate_supported_attachments"],
+            "att-mbox-file": ["mbox-attachment", "tempfile", "read_file", "iterate_supported_attachments"],
+            "mem-zip": ["zip-member", "read_archive"], "mem-tar": ["tar-member", "read_archive"], "mem-tgz": ["tar.gz-member", "read_archive"]})
 EXTRACTOR_KEYS = list(S.EXTRACTORS)
+# container-level operators: the ones whose effect depends on how the container's entries are named / laid out (quick tier of the
+# seed renderings; the content-level ones - record lengths, image segments, XML cuts - are added in the thorough tier)
+CONTAINER_OPS = ("cfb", "fatent", "zdrop", "zempty", "zhost")
+# routing family: how the name that selects the extractor is spelled (e = the extension of the payload's format)
+NAME_STYLES = ["none", "noext", "unknown", "dot", "own", "upper", "foreign", "hidden", "path"]
+ATT_STYLES = [x for x in NAME_STYLES if x != "path"]
+FILE_STYLES = [x for x in NAME_STYLES if x not in ("none", "path", "own")]
+MEMBER_STYLES = [x for x in NAME_STYLES if x not in ("none", "own")]
+UNREGISTERED_MIMES = ["application/octet-stream", "application/x-verif-unknown", "image/png"]
+PLAIN_EXTS = ("txt", "csv", "tsv", "md", "json")
 CFB_HEADER_FIELDS = [(0x18, 2), (0x1A, 2), (0x1C, 2), (0x20, 2), (0x28, 4), (0x2C, 4), (0x30, 4), (0x38, 4), (0x3C, 4), (0x40, 4),
                      (0x44, 4), (0x48, 4), (0x4C, 4)]
 _TMP = {}
@@ -83,7 +114,7 @@ _MEMO: dict = {}
 def src_bytes(src: str) -> bytes:
     kind, name = src.split(":", 1)
     if kind == "G":
-        return S.build_g()[name]["data"]
+        return S.seed(name)["data"]
     if kind == "T":
         return T.document(*name.split("/"))
     return S.fixture_bytes(name)
@@ -93,7 +124,7 @@ def src_own(src: str) -> str:
     kind, name = src.split(":", 1)
     if kind == "T":
         return T.CARRIERS[name.split("/")[0]][1]
-    return S.build_g()[name]["to"] if kind == "G" else S.fixture_to(name)
+    return S.seed(name)["to"] if kind == "G" else S.fixture_to(name)
 
 
 def src_ext(src: str) -> str:
@@ -166,7 +197,7 @@ def _img_modes(kind: str):
 
 def _seed_image(name: str):
     """(kind, image bytes) of the image embedded in G seed `name`, or None"""
-    s = S.build_g()[name]
+    s = S.seed(name)
     jpg, png = S.tiny_jpeg(), S.tiny_png()
     blobs = []
     if "zip" in s:
@@ -184,7 +215,7 @@ def _seed_image(name: str):
 
 
 def _replace_image(name: str, old: bytes, new: bytes) -> bytes:
-    s = S.build_g()[name]
+    s = S.seed(name)
     if "zip" in s:
         ms = [dict(m, data=m["data"].replace(old, new)) if m.get("data") else dict(m) for m in s["zip"]]
         return S.rezip(ms)
@@ -205,6 +236,8 @@ def materialize(case) -> bytes:
         return data
     if kind in ("trunc", "head"):
         return data[:op[1]]
+    if kind == "route":
+        return {"id": data, "empty": b"", "head8": data[:8]}[op[1]]
     if kind == "headpad":
         return data[:op[1]] + b"\0" * op[2]
     if kind == "ovw":
@@ -213,7 +246,7 @@ def materialize(case) -> bytes:
     if kind == "del":
         return data[:op[1]] + data[op[1] + 1:]
     name = src.split(":", 1)[1]
-    s = S.build_g()[name]
+    s = S.seed(name)
     if kind in ("zdrop", "zempty", "ztrunc", "zhost", "zforge"):
         ms = [dict(m) for m in s["zip"]]
         i = op[1]
@@ -234,7 +267,7 @@ def materialize(case) -> bytes:
             ms[i][op[2]] = op[3]
         return S.rezip(ms)
     if kind == "cfb":
-        streams, o = s["cfb"] if "cfb" in s else ({}, {})
+        streams, o = s["cfb"] if "cfb" in s else ({}, s.get("shell_opts", {}))
         o = dict(o)
         streams = dict(streams)
         opt, arg, val = op[1], op[2], op[3]
@@ -359,6 +392,84 @@ def _fatent_value(mode: str, index: int) -> int:
     return {"0": 0, "1": 1, "self": index, "skip": index + 2, "end": 0xFFFFFFFE, "free": 0xFFFFFFFF, "ffff": 0xFFFF}[mode]
 
 
+# ------------------------------------------------------------------------------------------------ routing family
+def route_name(style: str, ext: str):
+    """the file / member / attachment name of a routing case (None: the carrier gives the payload no name at all)"""
+    foreign = "pdf" if ext in PLAIN_EXTS else "txt"
+    return {"none": None, "noext": "att", "unknown": "att.bin", "dot": "att.", "own": "att." + ext, "upper": ("att." + ext).upper(),
+            "foreign": "att." + foreign, "hidden": "." + ext, "path": "d/att." + ext}[style]
+
+
+def mime_table() -> list:
+    """[(media type, extension of the format it stands for)]: every media type the library registers (read from its table when the
+    cases are enumerated, so that a type added later is covered as well) and every one this harness knows (S.CTYPES)"""
+    if "mimes" not in _MEMO:
+        from sharepoint2text.parsing.mime_types import MIME_TYPE_MAPPING
+        t = {v: k for k, v in S.CTYPES.items()}
+        t.update({k: str(v) for k, v in MIME_TYPE_MAPPING.items() if isinstance(k, str)})
+        _MEMO["mimes"] = sorted(t.items())
+    return _MEMO["mimes"]
+
+
+def payload_src(ext: str) -> str:
+    """the seed whose bytes travel in a routing case for format extension `ext`"""
+    g = S.build_g()
+    for name, s_ in g.items():
+        if S.path_ext(name) == ext and "pdfenc" not in s_:
+            return f"G:{name}"
+    to = S.EXT_TO.get(ext, "archive" if ext.startswith("t") else "plain")
+    for name, s_ in g.items():
+        if s_["to"] == to and "pdfenc" not in s_ and "shell" not in s_:
+            return f"G:{name}"
+    own = [r for r in S.fixtures() if S.fixture_to(r) == to and len(S.fixture_bytes(r)) > 0]
+    if own:
+        return "F:" + min(own, key=lambda r: (len(S.fixture_bytes(r)), r))
+    return "G:txt"
+
+
+def _route_cases(group: str, tier: str) -> list:
+    quick = tier == "quick"
+    g = S.build_g()
+    out = []
+    if group == "route:att":
+        carriers = ["att-eml", "att-mbox"] if quick else ["att-eml", "att-mbox", "att-eml-file", "att-mbox-file"]
+        grid = [(m, e) for m, e in mime_table()] + [(m, e) for m in UNREGISTERED_MIMES for e in ("docx", "pdf", "txt")]
+        for mime, ext in grid:
+            src = payload_src(ext)
+            to = S.EXT_TO.get(ext, "archive" if ext.startswith("t") else "plain")
+            spellings = [mime, mime.upper()] + ([] if quick or mime.lower() in (mime, mime.upper()) else [mime.lower()])
+            for carrier in carriers:
+                for sp in spellings:
+                    for pay in (["id", "empty"] if quick else ["id", "empty", "head8"]):
+                        if quick and pay != "id" and (sp != mime or carrier != "att-eml"):
+                            continue        # quick: the empty payload travels under the registered spelling in an .eml only
+                        if quick and carrier != "att-eml" and sp != mime:
+                            continue
+                        out += [{"src": src, "to": to, "seam": carrier, "via": VIA[carrier], "op": ["route", pay, st, sp, ext]}
+                                for st in ATT_STYLES]
+    elif group == "route:mem":
+        for name, s_ in g.items():
+            if s_["to"] == "archive" or "pdfenc" in s_:
+                continue
+            ext = S.path_ext(name)
+            for carrier in (["mem-zip", "mem-tar"] if quick else ["mem-zip", "mem-tar", "mem-tgz"]):
+                for pay in (["id"] if quick else ["id", "empty"]):
+                    out += [{"src": f"G:{name}", "to": s_["to"], "seam": carrier, "via": VIA[carrier], "op": ["route", pay, st, None, ext]}
+                            for st in MEMBER_STYLES]
+    elif group == "route:path":
+        for name, s_ in g.items():
+            if "pdfenc" in s_:
+                continue
+            ext = S.path_ext(name)
+            for seam in (["read_file", "cli"] if quick else ["read_file", "cli", "cli-json", "cli-json-unit"]):
+                for pay in (["id"] if quick else ["id", "empty"]):
+                    out += [{"src": f"G:{name}", "to": s_["to"], "seam": seam, "via": VIA[seam], "op": ["route", pay, st, None, ext]}
+                            for st in FILE_STYLES]
+    else:
+        raise KeyError(group)
+    return out
+
+
 # ------------------------------------------------------------------------------------------------ enumeration
 def groups(tier: str) -> list:
     """names of the case groups (each group is enumerated by group_cases)"""
@@ -370,6 +481,9 @@ def groups(tier: str) -> list:
     for rel in S.fixtures():
         out.append(f"fix:{rel}")
     out += ["cross", "splice", "seams:G", "seams:F", "text", "climodes"]
+    out += [f"variant:{name}" for name, s in S.build_variants().items()
+            if s["variant"] in (S.VARIANTS_QUICK if tier == "quick" else S.VARIANTS_THOROUGH)]
+    out += ["route:att", "route:mem", "route:path"]
     only = os.environ.get("VERIF_C01_ONLY")         # development aid: run some case groups only (reported in the coverage)
     if only:
         out = [x for x in out if x.startswith(tuple(only.split(",")))]
@@ -379,7 +493,7 @@ def groups(tier: str) -> list:
 def _aware_ops(name: str, tier: str) -> list:
     """container-aware operators of G seed `name`"""
     quick = tier == "quick"
-    s = S.build_g()[name]
+    s = S.seed(name)
     ops = []
     if "zip" in s:
         hostile = S.HOSTILE_QUICK if quick else list(S.hostile_bodies())
@@ -557,6 +671,18 @@ def group_cases(tier: str, group: str) -> list:
             to = src_own(src)
             out += [{"src": src, "to": to, "seam": mode, "via": VIA[mode], "op": ["id"]}
                     for mode in ("cli-json-binary", "cli-json-unit-binary", "cli-binary")]
+    elif group.startswith("variant:"):
+        # another rendering of a G seed's container (entry names respelled, other sector size / directory shape): unmutated through
+        # every seam, and every container-level (thorough: every container-aware) operator through the extractor
+        name = group[8:]
+        s = S.seed(name)
+        src = f"G:{name}"
+        out.append({"src": src, "to": s["to"], "seam": "direct", "op": ["id"]})
+        out += [{"src": src, "to": s["to"], "seam": seam, "via": VIA[seam], "op": ["id"]} for seam in SEAMS[1:]]
+        out += [{"src": src, "to": s["to"], "seam": "direct", "op": op} for op in _aware_ops(name, tier)
+                if not quick or op[0] in CONTAINER_OPS]
+    elif group.startswith("route:"):
+        out = _route_cases(group, tier)
     else:
         raise KeyError(group)
     _MEMO[key] = out
@@ -819,6 +945,19 @@ def _confirm(to: str, site: str) -> None:
 def build_input(case, data: bytes):
     """harness side of a seam (wrapping, path names): -> (ext, wrapped bytes or None)"""
     seam, to = case["seam"], case["to"]
+    if case["op"][0] == "route":
+        _, _, style, mime, ext = case["op"]
+        fname = route_name(style, ext)
+        if seam.startswith("att-"):
+            att = {"filename": fname, "filename_style": "plain", "ctype": mime, "data_hex": data.hex(), "cte": "base64",
+                   "disposition": "attachment"}
+            spec = {"structure": "mixed-plain-att-att", "attachments": [att]}
+            return fname, (S.mail.mbox([spec, {}]) if seam.startswith("att-mbox") else S.mail.eml(spec))
+        if seam == "mem-zip":
+            return fname, S.zipforge.zipforge([{"name": fname, "data": data, "method": 8}])
+        if seam in ("mem-tar", "mem-tgz"):
+            return fname, S.tarforge.tarforge([{"name": fname, "data": data}], compression="gz" if seam == "mem-tgz" else None)
+        return fname, None
     ext = S.EXTRACTORS[to] if (case["op"][0] in ("id", "head", "headpad") and seam == "direct") else src_ext(case["src"])
     if seam == "zipmember":
         return ext, S.zipforge.zipforge([{"name": "member." + ext, "data": data, "method": 0}])
@@ -834,9 +973,10 @@ def run_seam(case, data: bytes, ext: str, wrapped):
     from sharepoint2text.parsing.exceptions import ExtractionError
     seam, to = case["seam"], case["to"]
     fails = []
+    fname = ext if case["op"][0] == "route" else "case." + ext        # routing cases name the file themselves
     if seam.startswith("cli"):
         import sharepoint2text.cli as cli
-        path = os.path.join(_tmpdir(), "case." + ext)
+        path = os.path.join(_tmpdir(), fname)
         with open(path, "wb") as f:
             f.write(data)
         argv = CLI_ARGV[seam] + [path]
@@ -884,7 +1024,7 @@ def run_seam(case, data: bytes, ext: str, wrapped):
             res = list(_extractor(to)(io.BytesIO(data), "case." + ext))
         elif seam == "read_file":
             import sharepoint2text
-            path = os.path.join(_tmpdir(), "case." + ext)
+            path = os.path.join(_tmpdir(), fname)
             with open(path, "wb") as f:
                 f.write(data)
             try:
@@ -892,6 +1032,25 @@ def run_seam(case, data: bytes, ext: str, wrapped):
             finally:
                 with contextlib.suppress(OSError):
                     os.unlink(path)
+        elif seam.startswith("att-"):
+            kind = "mbox" if seam.startswith("att-mbox") else "eml"
+            if seam.endswith("-file"):
+                import sharepoint2text
+                path = os.path.join(_tmpdir(), "wrap." + kind)
+                with open(path, "wb") as f:
+                    f.write(wrapped)
+                try:
+                    mails = list(sharepoint2text.read_file(path))
+                finally:
+                    with contextlib.suppress(OSError):
+                        os.unlink(path)
+            else:
+                mails = list(_extractor(kind)(io.BytesIO(wrapped), "wrap." + kind))
+            res = []
+            for r in mails:
+                res.extend(r.iterate_supported_attachments())
+        elif seam.startswith("mem-"):
+            res = list(_extractor("archive")(io.BytesIO(wrapped), "wrap." + {"mem-zip": "zip", "mem-tar": "tar", "mem-tgz": "tar.gz"}[seam]))
         elif seam == "zipmember":
             res = list(_extractor("archive")(io.BytesIO(wrapped), "wrap.zip"))
         elif seam == "eml":
@@ -1046,6 +1205,8 @@ def op_kind(case) -> str:
         return "pdfenc:" + "+".join(d[0] for d in case["op"][1:])
     if k in ("head", "headpad"):
         return "splice"
+    if k == "route":
+        return "route:" + case["op"][2]
     if k == "id":
         return "id" if case["to"] == src_own(case["src"]) else "cross"
     return k
@@ -1078,6 +1239,10 @@ def shrinks(case):
         for name, s in S.build_g().items():
             if family(s["data"]) == fam:
                 yield dict(case, src=f"G:{name}")
+    if case["op"][0] == "route":
+        if case["op"][1] != "empty":
+            yield dict(case, op=["route", "empty"] + list(case["op"][2:]))
+        return
     if case["op"][0] == "pdfenc" and len(case["op"]) == 3:
         yield dict(case, op=["pdfenc", case["op"][1]])
         yield dict(case, op=["pdfenc", case["op"][2]])
@@ -1247,7 +1412,7 @@ def run(ctx):
         by_class[c] = by_class.get(c, 0) + v
     grp_sizes: dict = {}
     for grp, n in per_group.items():
-        fam = grp.split(":")[0] if not grp.startswith("seams") else grp
+        fam = grp.split(":")[0] if not grp.startswith(("seams", "route")) else grp
         grp_sizes[fam] = grp_sizes.get(fam, 0) + n
     samples = sorted(samples, key=lambda s_: json.dumps(s_, sort_keys=True))[:6]
     slow.sort(key=lambda x: (-x[0], json.dumps(x[1], sort_keys=True)))
@@ -1264,19 +1429,32 @@ def run(ctx):
                    "sub-grid through read_file, ZIP member, e-mail attachment and the three CLI modes; T = %d documents (%d carriers x %d "
                    "character classes, expressible ones) through the extractor, read_file, ZIP member, e-mail attachment and every CLI "
                    "mode x stdout encoding %s%s; the remaining CLI option combinations (--binary) on every unmutated G seed%s; "
+                   "renderings: every G seed with a CFB / ZIP container re-rendered %s (unmutated through every seam; every container-%s "
+                   "operator through the extractor); routing: payload x name style %s x carrier (e-mail attachment of .eml / .mbox under "
+                   "each of the %d registered / known media types spelled as registered and upper-case%s + 3 unregistered; ZIP / tar%s member; "
+                   "file name given to read_file / CLI); "
                    "executed on the real extractors in "
                    "sandboxed workers; distinct_nontrivial = distinct (seam>extractor, operator kind, outcome class) triples observed"
                    % (len(S.build_g()), "8th " if q else "", "4th " if q else "", len(S.HOSTILE_QUICK) if q else len(S.hostile_bodies()),
                       "one" if q else "one and every two (in different fields)", len(E.deviations("aes")),
                       len(S.fixtures()), 16 if q else 64, len(T.names()), len(T.CARRIERS), len(T.CHARS),
                       STDOUTS_QUICK if q else STDOUTS_THOROUGH, "" if q else ", and to each of the other 20 extractors",
-                      "" if q else " and fixture"),
+                      "" if q else " and fixture",
+                      S.VARIANTS_QUICK if q else S.VARIANTS_THOROUGH, "level" if q else "aware", NAME_STYLES, len(mime_table()),
+                      "" if q else " and lower-case", "" if q else " / tar.gz"),
            "samples": samples, "exhaustive": True,
            "bounds": {"tier": ctx.tier, "soft_budget_s": SOFT_BUDGET, "hard_timeout_s": HARD_TIMEOUT, "blocked_after_wall_s": _Budget.BLOCK_WALL,
                       "stdout_encodings": STDOUTS_QUICK if q else STDOUTS_THOROUGH, "cli_modes": CLI_MODES,
                       "text_character_classes": list(T.CHARS), "text_carriers": list(T.CARRIERS),
                       "pdfenc_seeds": list(E.SEEDS), "pdfenc_fields": {k: len(v) for k, v in E.FIELDS.items()},
-                      "pdfenc_deviations_per_case": 1 if q else 2}}
+                      "pdfenc_deviations_per_case": 1 if q else 2,
+                      "seed_renderings": S.VARIANTS_QUICK if q else S.VARIANTS_THOROUGH,
+                      "rendering_operators": list(CONTAINER_OPS) if q else "all container-aware operators",
+                      "route_name_styles": NAME_STYLES, "route_media_types": [m for m, _ in mime_table()] + UNREGISTERED_MIMES,
+                      "route_media_type_spellings": ["registered", "upper"] + ([] if q else ["lower"]),
+                      "route_payloads": ["id", "empty"] + ([] if q else ["head8"]),
+                      "route_carriers": ["att-eml", "att-mbox", "mem-zip", "mem-tar", "read_file", "cli"] +
+                                        ([] if q else ["att-eml-file", "att-mbox-file", "mem-tgz", "cli-json", "cli-json-unit"])}}
     if ev != total:
         cov["skipped_inexpressible"] = total - ev
     if os.environ.get("VERIF_C01_ONLY"):
@@ -1311,5 +1489,9 @@ ASSUMPTIONS = [
     "running 20 s each; the simplest case of every hang shape is re-run twice at the full budget; memory blow-ups that end "
     "in an ExtractionError are attributed to C12",
     "seeds are rendered with a fixed token alphabet; VERIF_SEED permutes the work order only (byte offsets must not move with the seed)",
-    "e-mail attachment seam: attachments are routed by file name; formats without a registered media type travel as application/pdf",
+    "e-mail attachment seam (eml): attachments are named att.<ext> and declared with their registered media type; formats without a "
+    "registered media type travel as application/pdf.  The routing family (att-eml / att-mbox) varies name and declared type "
+    "independently; an attachment the library skips (no result) is a legitimate outcome, only the exception type and termination are judged",
+    "seed renderings: a respelled ZIP package is a valid OPC package only as far as the reader treats part names case-insensitively; "
+    "for C01 it is simply another byte string (result or ExtractionError are both acceptable)",
 ]
